@@ -347,10 +347,11 @@ def sweep_keys() -> set:
     return {r.key() for r in format_sweep_requests() + expression_sweep_requests()} - core
 
 
-def quick_requests() -> list[Request]:
+def quick_requests(expressions: bool = True) -> list[Request]:
     seen = set()
     out = []
-    for r in [Request.make(a, f) for a, f in QUICK_FIXED] + format_sweep_requests() + expression_sweep_requests():
+    for r in ([Request.make(a, f) for a, f in QUICK_FIXED] + format_sweep_requests()
+              + (expression_sweep_requests() if expressions else [])):
         if r.key() not in seen:
             seen.add(r.key())
             out.append(r)
